@@ -344,3 +344,14 @@ func Coins(kv ...interface{}) sdk.Coins {
 	}
 	return c
 }
+
+// Try runs f and converts a panic into an error (queries of a corrupted state may panic; that is a
+// finding about the state, not a harness failure).
+func Try(f func() error) (err error) {
+	defer func() {
+		if r := recover(); r != nil {
+			err = fmt.Errorf("panic: %v", r)
+		}
+	}()
+	return f()
+}
